@@ -199,6 +199,30 @@ func exec(op string) (res string) {
 		incl := cassLe(gocql.MinTimeUUID(ta), u) && cassLe(u, gocql.MaxTimeUUID(tb))
 		excl := !cassLe(u, gocql.MaxTimeUUID(ta)) && !cassLe(gocql.MinTimeUUID(tb), u)
 		return "incl=" + io(incl) + " excl=" + io(excl)
+	case "genord":
+		// two GENERATED time-UUIDs (UUIDFromTime, whatever the counter and node are right now) under Cassandra's order
+		ta, tb := time.Unix(i64(1), i64(2)), time.Unix(i64(3), i64(4))
+		u := gocql.UUIDFromTime(ta)
+		v := gocql.UUIDFromTime(tb)
+		uv, vu := cassLe(u, v), cassLe(v, u)
+		ord := "same-tick"
+		switch {
+		case tickOf(i64(1), i64(2)) == tickOf(i64(3), i64(4)):
+			if !uv && !vu {
+				ord = "NOT-TOTAL"
+			}
+		case uv && !vu:
+			ord = "lt"
+		case vu && !uv:
+			ord = "gt"
+		default:
+			ord = "UNORDERED"
+		}
+		bounds := "ok"
+		if !cassLe(gocql.MinTimeUUID(ta), u) || !cassLe(u, gocql.MaxTimeUUID(ta)) || !cassLe(gocql.MinTimeUUID(tb), v) || !cassLe(v, gocql.MaxTimeUUID(tb)) {
+			bounds = "OUTSIDE"
+		}
+		return ord + " bounds=" + bounds
 	case "randn":
 		// RandomUUID / MustRandomUUID when the random source can deliver only these bytes
 		b := hx(1)
@@ -668,6 +692,17 @@ func main() {
 		{
 			op, cls := genRange(r, sec, ns)
 			out.Case(op, exec(op), cls, true)
+		}
+		{
+			// the second instant: the same, one tick / a few ns / a second / far away, before or after
+			rop, _ := genRange(r, sec, ns)
+			f := strings.Fields(rop)
+			gocql.VerifSetClockSeq(genClock(r))
+			op = fmt.Sprintf("genord %s %s %s %s", f[1], f[2], f[3], f[4])
+			if r.Bool() {
+				op = fmt.Sprintf("genord %s %s %s %s", f[3], f[4], f[1], f[2])
+			}
+			out.Case(op, exec(op), "genord", true)
 		}
 		if i%4 == 0 {
 			n := []int{0, 1, 8, 15, 16, 17, 32}[r.Intn(7)]
